@@ -44,7 +44,7 @@ COMPONENTS = {
              "np.random.default_rng inside strategies.py (seeded)", "os.cpu_count inside interfaces.py (drawn)"],
 }
 TIERS = {
-    "quick": {"budget_s": 100.0, "max_runs": 100000, "chunk": 2, "run_timeout": 600.0, "min_budget": 90.0, "selfcheck_runs": 3},
+    "quick": {"budget_s": 90.0, "max_runs": 100000, "chunk": 1, "run_timeout": 600.0, "min_budget": 90.0, "selfcheck_runs": 3},
     "thorough": {"budget_s": 1200.0, "max_runs": 10_000_000, "chunk": 4, "run_timeout": 600.0, "min_budget": 240.0, "selfcheck_runs": 6},
 }
 
@@ -184,7 +184,7 @@ WORKERS = [2, 3, 1, 5, 8, 16, 40]
 NSEEDS = [4, 1, 2, 3, 6, 9, 12]
 
 
-def draw_config(ds, n_envs):
+def draw_config(ds, n_envs, quick: bool = False):
     c = {}
     c["env"] = ds.choose(n_envs, "cfg.env")
     c["h0"] = ds.pick(ENVS[c["env"]]["energies"], "cfg.energy")
@@ -198,6 +198,9 @@ def draw_config(ds, n_envs):
     c["max_steps"] = ds.pick([2000, 150, 60, 600], "cfg.max_steps", (0.6, 0.15, 0.1, 0.15))
     c["n_workers"] = ds.pick(WORKERS, "cfg.n_workers")
     c["rng_seed"] = ds.choose(4, "cfg.rng_seed")
+    if quick and c["method"] == "symplectic" and c["order"] >= 6:
+        # cost guard of the quick tier: high-order symplectic steps are 10-40x dearer per step
+        c["n_iter"], c["n_seeds"], c["max_steps"] = min(c["n_iter"], 2), min(c["n_seeds"], 4), min(c["max_steps"], 600)
     return c
 
 
@@ -258,7 +261,9 @@ def check_return(ctx, cfg, seed_row, point_row, t_ret, what):
     ham = ENVS[cfg["env"]]["ham"]
     sec, dt = cfg["section"], cfg["dt"]
     horizon = cfg["max_steps"] * dt
-    cands = cmref.reference_return(ham, seed_row, sec, horizon + 3 * dt, dt)
+    # a reported return only needs the reference flow up to just past its own return time
+    t_end = horizon + 3 * dt if point_row is None else min(horizon + 3 * dt, float(t_ret) + 6 * dt)
+    cands = cmref.reference_return(ham, seed_row, sec, t_end, dt)
     # two sign changes within two library steps cannot be resolved by a fixed-step sign test: don't care
     for a, b in zip(cands, cands[1:]):
         if b[0] - a[0] < 2.5 * dt:
@@ -285,7 +290,7 @@ def check_return(ctx, cfg, seed_row, point_row, t_ret, what):
         ctx.probe("o3_dropped_confirmed")
         return
     if not admissible:
-        if cands and cands[-1][0] > horizon - 2 * dt:
+        if float(t_ret) > horizon - 2 * dt:
             ctx.probe("o3_dont_care_horizon")
             return
         raise Violation("C14/O3-not-a-return", f"{what}: point {point_row.tolist()} (t={t_ret:.6f}) reported for seed {seed_row.tolist()} "
@@ -305,7 +310,7 @@ def check_return(ctx, cfg, seed_row, point_row, t_ret, what):
 def execute(ctx: RunCtx) -> None:
     from sims.executor_sim import Baton, make_pool, HarnessHang
     ds, log = ctx.ds, ctx.log
-    cfg = draw_config(ds, len(ENVS))
+    cfg = draw_config(ds, len(ENVS), quick=(ctx.tier == "quick"))
     fault_cfg = ds.flag("cfg.fault_configuration", 0.15)
     use_psim = ds.flag("cfg.prange_sim_kernel", 0.5)
     log.add("cfg", {k: (fhex(v) if isinstance(v, float) else v) for k, v in cfg.items()}, fault_cfg, use_psim)
